@@ -38,8 +38,10 @@ class DocstringSchemaExtractor(BaseSchemaExtractor):
 
                 parameters_schema[param.arg_name] = {
                     'title': param.arg_name.capitalize(),
-                    'type': param.type_name,
                 }
+                if param.type_name is not None:
+                    # a field documented without a type has no type constraint (`"type": null` is not a valid schema)
+                    parameters_schema[param.arg_name]['type'] = param.type_name
                 if param.description is not None:
                     parameters_schema[param.arg_name]['description'] = param.description
 
@@ -69,9 +71,10 @@ class DocstringSchemaExtractor(BaseSchemaExtractor):
             doc = docstring_parser.parse(method.__doc__)
             if doc and doc.returns:
                 result_schema = {
-                    'type': doc.returns.type_name,
                     'title': 'Result',
                 }
+                if doc.returns.type_name is not None:
+                    result_schema['type'] = doc.returns.type_name
                 if doc.returns.description is not None:
                     result_schema['description'] = doc.returns.description
 
